@@ -349,6 +349,12 @@ func oracleFor(op *Sexp, res string) []string {
 		if res != want {
 			bad("target after Unmarshal breaks the merge rules: got %s want %s", res, want)
 		}
+	case "declong":
+		if !strings.HasPrefix(res, "ok same=true ") {
+			bad("a long value did not come back: %s", res)
+		} else if !strings.Contains(res, " within=true ") {
+			bad("allocation while decoding a long input is not within a fixed multiple of its length: %s", res)
+		}
 	case "deschost", "jhost", "jhostdesc":
 		if res != "err" && !strings.HasPrefix(res, "ok") && res != "builderr" {
 			bad("decode outcome %q", res)
